@@ -749,7 +749,13 @@ func c19(r *engine.Run) {
 		}
 		return cls
 	}
+	deepSamples := map[int]string{}
 	sp.Invariant = func(l *c19Live, hist []c19Op) {
+		fmu.Lock()
+		if cur, ok := deepSamples[len(hist)]; len(hist) > 1 && (!ok || fmt.Sprint(hist) > cur) {
+			deepSamples[len(hist)] = fmt.Sprint(hist) // deterministic pick: the lexicographically last history of each depth
+		}
+		fmu.Unlock()
 		last := "NewService"
 		if len(hist) > 0 {
 			last = hist[len(hist)-1].Kind
@@ -769,6 +775,24 @@ func c19(r *engine.Run) {
 					}
 					return false
 				}})
+		}
+	}
+	// determinism self-check of the canonical key: the same histories replayed twice (different random file names,
+	// encryption nonces, possibly different wall-clock seconds) must give the same key
+	for _, h := range [][]c19Op{
+		{{Kind: "CreateWallet", Slot: -1, Type: wallet.WalletTypeDeterministic, Name: "generated", Mode: "plain"}, {Kind: "EncryptWallet", Slot: 0, Pw: "right"}, {Kind: "NewAddresses", Slot: 0, Pw: "right", Arg: "n=2"}},
+		{{Kind: "CreateWallet", Slot: -1, Type: wallet.WalletTypeBip44, Name: "generated", Mode: "temporary"}, {Kind: "CreateWallet", Slot: -1, Type: wallet.WalletTypeBip44, Seed: 1, Name: "fresh", Mode: "encrypted"}, {Kind: "RecoverWallet", Slot: 1, Pw: "new", Arg: "right-seed"}},
+		{{Kind: "CreateWallet", Slot: -1, Type: wallet.WalletTypeXPub, Name: "fresh", Mode: "plain"}, {Kind: "UnloadWallet", Slot: 0}, {Kind: "CreateWallet", Slot: -1, Type: wallet.WalletTypeCollection, Seed: -1, Name: "slot0", Mode: "encrypted"}},
+	} {
+		a, b := c19Replay(h), c19Replay(h)
+		ka, kb := c19Key(a), c19Key(b)
+		if len(a.tr.Slots) == 0 || len(a.tr.Slots) != len(b.tr.Slots) {
+			r.Broken("determinism self-check: history %v did not create its wallets", h)
+		}
+		c19Close(a)
+		c19Close(b)
+		if ka != kb {
+			r.Broken("nondeterminism: history %v replayed twice gives two different state keys", h)
 		}
 	}
 	sp.MaxDepth = depth
@@ -823,6 +847,11 @@ func c19(r *engine.Run) {
 	}
 	cov := res.Coverage("a state = canonical (bookkeeping, wallets in service memory, fingerprint table, every file of the wallet directory); file names, timestamps and encryption nonces canonicalised")
 	cov["depth"] = depth
+	for d := 2; d <= depth; d++ {
+		if h, ok := deepSamples[d]; ok {
+			cov["samples"] = append(cov["samples"].([]interface{}), h)
+		}
+	}
 	if res2 != nil {
 		c2 := res2.Coverage("same, up to 3 wallets per history, depth 3")
 		delete(c2, "outcome_histogram") // merged into the main histogram
